@@ -169,7 +169,18 @@ def fmt_part(p):
 
 def gen_partition(rng, intervals, allowed, now_s):
     """A partition as storage could report it: nil entries only as a prefix; last slot nil => current lag 0."""
-    kind = rng.choice(["full", "full", "partial", "empty-ring", "no-ring", "owner-only"])
+    kind = rng.choice(["full", "full", "partial", "empty-ring", "no-ring", "owner-only", "warn", "warn"])
+    if kind == "warn":
+        # advancing offsets, present lags non-decreasing and all above the allowed lag, recent timestamps: the WARN rule
+        n = intervals
+        off0 = rng.randrange(0, 10**6)
+        lag0 = allowed + 1 + rng.randrange(0, 50)
+        offs = []
+        for i in range(n):
+            lag0 += rng.choice([0, 1, 5])
+            offs.append((off0 + 10 * i, 1000 + i, now_s * 1000 - (n - i) * 1000, lag0))
+        brokers = [offs[-1][0] + lag0 + rng.choice([0, 1, 7])]
+        return (rng.choice([0, 1]), 0, max(allowed + 1, brokers[-1] - offs[-1][0]), brokers, offs)
     owner = rng.choice([0, 0, 1, 2, 3])
     client = rng.choice([0, 1, 2]) if owner else 0
     if kind == "no-ring":
@@ -196,11 +207,11 @@ def gen_group(rng, idx):
     allowed = rng.choice([0, 0, 1, 10])
     now = rng.choice([1500000000, 1600000000 + rng.randrange(0, 10**6)])
     minimum = rng.choice([0, 0, 0x3E99999A, 0x3F000000, 0x3F800000, 0x3F4CCCCD, 0x3F19999A])  # 0, .3, .5, 1, .8, .6
-    ntop = rng.choice([0, 1, 1, 2, 3, 4])
+    ntop = rng.choice([1, 1, 1, 2, 2, 3, 4]) if rng.random() > 0.05 else 0      # empty groups: about 5 %
     topics = []
     tie = rng.random() < 0.3
     for t in range(ntop):
-        nparts = rng.choice([0, 1, 2, 3, 6])
+        nparts = rng.choice([1, 1, 2, 3, 6]) if rng.random() > 0.08 else 0
         parts = [gen_partition(rng, intervals, allowed, now) for _ in range(nparts)]
         topics.append((t + 1, parts))
     if tie:
@@ -221,7 +232,12 @@ def fmt_group(g, order=None):
         seen = [t for t in order if t in byid]
         rest = [t for t, _ in topics if t not in seen]
         topics = [(t, byid[t]) for t in seen + rest]
-    parts = ["group", str(g["minimum"]), str(g["allowed"]), str(g["now"]), str(len(topics))]
+    if g.get("minimum_dec") is not None:
+        # "groupd": the module is configured with the decimal TEXT (float64 through viper, then Configure's float32 cast);
+        # the model gets the float32 bits of that decimal
+        parts = ["groupd", str(g["minimum"]), g["minimum_dec"], str(g["allowed"]), str(g["now"]), str(len(topics))]
+    else:
+        parts = ["group", str(g["minimum"]), str(g["allowed"]), str(g["now"]), str(len(topics))]
     for t, ps in topics:
         parts += [str(t), str(len(ps))] + [fmt_part(p) for p in ps]
     return " ".join(parts)
@@ -244,8 +260,17 @@ def gen_gate_group(rng, idx):
     d = rng.choice([-1, 0, 0, 0, 1])
     kk = max(0, min(intervals, k + d))
     minimum = f32bits(kk / intervals)
+    minimum_dec = None
     if rng.random() < 0.1:
         minimum = rng.choice([0x3F800000, 0x3F7FFFFF, 0, 0x3F800001])
+    elif rng.random() < 0.3:
+        # a decimal setting whose float64 and float32 roundings differ (0.7 -> 0.699999988 as float32), with the window
+        # exactly that complete: the gate must compare float32 with float32 as Configure's cast makes it
+        intervals = 10
+        kk = rng.choice([1, 2, 3, 6, 7, 9])
+        k = max(1, min(10, kk + rng.choice([-1, 0, 0, 0, 1])))
+        minimum_dec = "0.%d" % kk
+        minimum = f32bits(float(minimum_dec))
     parts = []
     for pi in range(rng.choice([1, 1, 2, 3])):
         kf = k if pi == 0 else rng.randrange(1, intervals + 1)
@@ -268,4 +293,6 @@ def gen_gate_group(rng, idx):
         curlag = max(allowed + 1, brokers[-1] - last)
         parts.append((rng.choice([0, 1]), 0, curlag, brokers, offs))
     tags = ["gate:min=%s" % ("k/N%+d/N" % d if minimum == f32bits(kk / intervals) else "special"), "N=%d" % intervals]
-    return dict(minimum=minimum, allowed=allowed, now=now, topics=[(1, parts)], intervals=intervals), tags
+    if minimum_dec is not None:
+        tags = ["gate:min=decimal-" + minimum_dec, "N=%d" % intervals]
+    return dict(minimum=minimum, minimum_dec=minimum_dec, allowed=allowed, now=now, topics=[(1, parts)], intervals=intervals), tags
